@@ -527,7 +527,7 @@ func init() {
 		ID: "C24", Level: "exploration",
 		Rule:        "generated histories of event batches (12 event types; addresses/public keys drawn from pools of 1..70000 distinct values walked through so that the store's id tables cross 255/65535; nil public keys on unbonds; empty commits and uncommitted gaps) committed at increasing heights on the real events store over memdb or goleveldb with restarts (new store object / close+reopen, reading first or committing first); one evaluation = one LoadEvents(height) compared element-wise (JSON) with what was added; distinct = event kind x address-table bucket x pubkey-table bucket x reader/restart kind",
 		Assumptions: []string{"amounts are canonical non-negative decimal strings, coin and order ids fit uint32, roles are the four roles the node emits (what the node itself produces)", "one store object writes at a time (as in the node); readers are the writer or store objects created after the last write"},
-		Quick:       56, Thorough: 3360, MinEval: 3000, MinDistinct: 60,
+		Quick:       56, Thorough: 560, MinEval: 3000, MinDistinct: 60,
 		Run: c24Run,
 		Post: func(total *WorkerResult) {
 			// the run must have pushed both id tables over their 16-bit boundary, otherwise say so
